@@ -205,6 +205,21 @@ def main():
         pads = [st for st in sl.padded_styles(sep) if st != 'joined-padded']
         style = rng.choice(pads) if pads and rng.random() < 0.6 else 'compact'
         cases.append(make_case(trees, sep, style, rng, 'trees-%s-%s' % (fam, style), tail=TAILS[(k // len(SEPS)) % len(TAILS)]))
+    # separators written with their leading space (' ;esyll', ' ;eword' next to the phone separator ' '): the tags of the usual
+    # format 'hh ih r ;esyll ;eword' read as strings; the lower separator is then part of the higher ones and the levels must
+    # be taken from the word down. Homographs with different syllabifications included, so that a left-over tag would show.
+    nested = (' ', ' ;esyll', ' ;eword')
+    for k in range(40 if ck.thorough else 8):
+        phones = sl.PHONES[['ascii', 'ipa'][k % 2]]
+        lexi = [sl.rand_tree(rng, phones, nwords=1)[0] for _ in range(rng.randint(2, 6))]
+        flat = [ph for syl in lexi[0] for ph in syl]
+        if len(flat) >= 3:
+            lexi += [[flat[:1], flat[1:]], [flat[:2], flat[2:]]]
+        trees = []
+        while sum(len(t) for t in trees) <= 11 + rng.randint(0, 12):
+            trees.append([rng.choice(lexi) for _ in range(rng.randint(1, 4))])
+        if all(sl.tree_ok(t, (' ', ';esyll', ';eword')) for t in trees):      # (tree_ok refuses nested separators: judged on the bare tags)
+            cases.append(make_case(trees, nested, 'joined-inner', rng, 'trees-nested-separators', tail=TAILS[k % len(TAILS)]))
     # homographs: word tokens with the same surface string but another syllabification or another grouping
     # of the characters into phones ('a.ba' / 'ab.a', 'tʃ ɪ' / 't ʃ ɪ'): every token counts with its own hierarchy
     for k in range(120 if ck.thorough else 24):
